@@ -8,6 +8,9 @@ import (
 
 var stuckTotal int
 
+// EmitProd: also emit the merged registry+subscription streams for the conformance check with M_prod (set by the harness of C05).
+var EmitProd bool
+
 // TooManyStuck reports that several scenarios ran into the liveness bound: the caller stops generating
 // (every further hit costs the full bound; the evidence already contains the failures).
 func TooManyStuck() bool { return stuckTotal >= 3 }
@@ -26,6 +29,11 @@ func Emit(out *wh.Out, res *Result) {
 		}
 		if l := res.RegStream(); l != "" {
 			out.Case(l, "ok")
+			if EmitProd {
+				for _, pl := range res.ProdStreams() {
+					out.Case(pl, "ok")
+				}
+			}
 		}
 	}
 	out.Case(res.TopTrace(), "ok")
